@@ -11,6 +11,44 @@ E3 = "exhaustive / preemption-bounded prange schedule enumeration on source-deri
 
 # id -> (built, category, technique, text, note, design_ref)
 CHECKS = {
+    "C07": (
+        True,
+        "exploration",
+        E1 + " + M2 independent unit algebra",
+        "Product of the six comparison operators x right-operand kind (Array, Quantity, int, float, 0-d and n-d ndarray) x 4 left "
+        "dtypes x 7 shape pairs incl. broadcasting x every ordered unit pair within 7 families plus incompatible cross-family pairs, "
+        "with right-hand values built as the left-hand quantity times {0.99, 1, 1.01} expressed in the other unit so that the verdict "
+        "flips only after conversion; exact integer pairs (1 m vs 99/200/301 cm ...); the four logical operators over all truth "
+        "patterns, shapes and operand kinds. Result must be a dimensionless boolean Array of the broadcast shape; incompatible "
+        "dimensions must raise.",
+        "Trusted: M2 unit table. Elements within the rounding band of equality accept either verdict.",
+        "DESIGN.md §3 C07",
+    ),
+    "C08": (
+        True,
+        "exploration",
+        E1 + " + M2 independent unit table; per-process configuration enumeration",
+        "Every ordered pair of units within 9 families (incl. every unit and alias osyris defines) x dtypes x shapes: physical value "
+        "preserved (M2), exact ratio for exact units, source bit-identical, round trip, chains a->b->c vs a->c, Vectors of 1-3 "
+        "components against per-component conversion, every cross-family pair must raise; each constant of the default "
+        "configuration against independently written IAU 2015 / CODATA values; equivalent spellings; and all 8 subsets of "
+        "user-supplied configuration objects, each imported in a fresh process with its own HOME.",
+        "Trusted: M2 table (constants pinned to 1e-3/1e-4 relative; finer digits are not checked).",
+        "DESIGN.md §3 C08",
+    ),
+    "C09": (
+        True,
+        "exploration",
+        E1 + " differential against component Arrays + M2 for norm/dot/cross",
+        "Product of component count {1,2,3} x 14 binary operators (arithmetic, comparison, in-place) x 7 right-operand kinds (incl. a "
+        "Vector with another component count, which must be rejected) x 6 unit pairs x dtypes x shapes, plus unary/reflected/power, "
+        "numpy unary/binary/sequence/reduction, reshape/slicing/mask/copy and logical operators: the Vector result must equal, bit "
+        "for bit and unit for unit, the same operation on fresh component Arrays, or both must raise. norm against sqrt(sum c^2) in "
+        "CGS; dot and cross over a lattice of integer 3-vectors in same and mixed units against CGS values, with symmetry, "
+        "antisymmetry, a.(axb)=0 and the Lagrange identity.",
+        "Array semantics themselves are pinned by C02/C07/C10.",
+        "DESIGN.md §3 C09",
+    ),
     "C02": (
         True,
         "exploration",
